@@ -84,6 +84,7 @@ _DEPTH = re.compile(r"The depth of the complete state graph search is (\d+)")
 def _tlc_env(trace=None, xmx="3g", extra_env=None):
     e = dict(os.environ)
     e["JAVA_TOOL_OPTIONS"] = f"-Xss1g -Xmx{xmx}"
+    e.setdefault("EXPLAIN", "0")
     if trace:
         e["TRACE"] = trace
     if extra_env:
@@ -158,7 +159,7 @@ def tlc_generate(module, cfg=None, workers=4, timeout=1800, marker="REPLAY", **k
     return r
 
 
-_REJ = re.compile(r'<<\s*"REJECT",\s*(\d+),')
+_REJ = re.compile(r'<<\s*"REJECT",\s*(\d+)\s*[,>]')
 
 
 def tlc_trace(module, trace, cfg=None, timeout=1800, tag=None, xmx="3g"):
@@ -234,7 +235,9 @@ def validate_file(module, trace, prop, tier, seed, cfg=None, max_rejects=4, time
         rp = os.path.join(REPLAYS, f"{prop}-{tier}-{seed}-{h}.ndjson")
         with open(rp, "w") as f:
             f.write("\n".join(cur_lines[s:e]) + "\n")
+        mev = re.search(r'"ev":"(\w+)"', cur_lines[i0])
         total["rejects"].append({"replay": rp, "index": i0 - s, "event": cur_lines[i0][:400],
+                                 "ev": mev.group(1) if mev else "?",
                                  "init": cur_lines[s][:400], "spec": module,
                                  "invariant": bool(r.get("invariant"))})
         k += 1
